@@ -45,7 +45,7 @@ type Cfg struct {
 	Pop      bool   `json:"pop"`
 	Notifier bool   `json:"notifier"`
 	Width    int    `json:"width"`
-	Delay    bool   `json:"delay"` // WithRenderDelay
+	Delay    bool   `json:"delay"`    // WithRenderDelay
 	OutFault int    `json:"outfault"` // k-th output Write fails (0 = never)
 	Ctx      bool   `json:"ctx"`      // NewWithContext with a harness-owned cancel
 }
